@@ -445,7 +445,9 @@ class SymdelDB:
         ans = []
         seqs2 = ensure_numpy(seqs2)
         threshold = max_custom_distance
-        if custom_distance in (None, 'hamming') or max_custom_distance == float('inf'):
+        # a custom distance is filtered by its own radius and, separately, by the edit radius
+        check_edits = custom_distance not in (None, 'hamming')
+        if not check_edits:
             threshold = self.max_edits
         if custom_distance == 'hamming':
             custom_distance = _hamming_replacement
@@ -467,6 +469,8 @@ class SymdelDB:
             for j in j_indices:
                 dist = custom_distance(seqs2[i], self.seqs[j])
                 if dist > threshold:
+                    continue
+                if check_edits and levenshtein(seqs2[i], self.seqs[j]) > self.max_edits:
                     continue
                 ans.append((i, j, dist))
 
@@ -535,7 +539,9 @@ def symdel(seqs, max_edits=1, max_returns=None, n_cpu=1,
     if seqs2 is None:
         ans = set()
         threshold = max_custom_distance
-        if custom_distance in (None, 'hamming') or max_custom_distance == float('inf'):
+        # a custom distance is filtered by its own radius and, separately, by the edit radius
+        check_edits = custom_distance not in (None, 'hamming')
+        if not check_edits:
             threshold = max_edits
         if custom_distance == 'hamming':
             custom_distance = _hamming_replacement
@@ -549,6 +555,8 @@ def symdel(seqs, max_edits=1, max_returns=None, n_cpu=1,
             for i, j in combinations(values, 2):
                 dist = custom_distance(seqs[i], seqs[j])
                 if dist > threshold:
+                    continue
+                if check_edits and levenshtein(seqs[i], seqs[j]) > max_edits:
                     continue
                 ans.add((i, j, dist))
                 ans.add((j, i, dist))
